@@ -115,7 +115,7 @@ func closedForms(r *vlib.Run) {
 	// (lamp included) - the recursive tracer with MaxDepth d, the bidirectional tracer with eye
 	// paths <= d and light paths of 1 vertex, and with eye paths of 1 and light paths <= d - must
 	// agree up to noise (mean brightness over the image within 5%; the noise is about 0.3%).
-	r.Section("closed.room", r.N(2, 40), vlib.SectionOpts{Sequential: true, NoScale: true}, func(c *vlib.Case) {
+	r.Section("closed.room", r.N(4, 40), vlib.SectionOpts{Sequential: true, NoScale: true}, func(c *vlib.Case) {
 		rng := c.Rng
 		hw := 4 + 2*rng.Float64()
 		lamp := &model3d.Sphere{Center: model3d.XYZ(rng.NormFloat64()*0.5, rng.NormFloat64()*0.5, hw*0.8), Radius: 0.7 + 0.5*rng.Float64()}
@@ -145,11 +145,30 @@ func closedForms(r *vlib.Run) {
 		wit := map[string]interface{}{"room_half_width": hw, "lamp": fmt.Sprint(*lamp), "albedo": albedo, "depth": d, "samples": samples}
 		for _, cfg := range [][2]int{{d, 1}, {1, d}} {
 			img := render3d.NewImage(size, size)
-			(&render3d.BidirPathTracer{Camera: cam, Light: light, MaxDepth: cfg[0], MaxLightDepth: cfg[1], NumSamples: samples}).Render(img, scene)
+			bp := &render3d.BidirPathTracer{Camera: cam, Light: light, MaxDepth: cfg[0], MaxLightDepth: cfg[1], NumSamples: samples}
+			// the variance-reduction options leave the estimate unbiased: power heuristic for the
+			// path weights, roulette on dim connections, roulette on dim paths after MinDepth edges
+			opts := ""
+			switch rng.Intn(4) {
+			case 1:
+				bp.PowerHeuristic = []float64{1, 2, 3}[rng.Intn(3)]
+				opts = fmt.Sprintf(" PowerHeuristic=%g", bp.PowerHeuristic)
+			case 2:
+				bp.RouletteDelta = []float64{0.05, 0.5, 5}[rng.Intn(3)]
+				opts = fmt.Sprintf(" RouletteDelta=%g", bp.RouletteDelta)
+			case 3:
+				bp.MinDepth = 1 + rng.Intn(2)
+				bp.PowerHeuristic = 2
+				opts = fmt.Sprintf(" MinDepth=%d PowerHeuristic=2", bp.MinDepth)
+			}
+			if opts != "" {
+				c.Count("closed.room.comparisons_with_variance_reduction_options", 1)
+			}
+			bp.Render(img, scene)
 			got := mean(img)
 			c.Count("closed.room.comparisons", 1)
 			if !(math.Abs(got-want) <= 0.05*want) {
-				wit["bidir"] = fmt.Sprintf("MaxDepth=%d MaxLightDepth=%d", cfg[0], cfg[1])
+				wit["bidir"] = fmt.Sprintf("MaxDepth=%d MaxLightDepth=%d%s", cfg[0], cfg[1], opts)
 				c.Violation("render3d.BidirPathTracer.Render/same-path-set-as-recursive-tracer",
 					fmt.Sprintf("mean brightness %.4f with eye paths <= %d and light paths <= %d; the recursive tracer with MaxDepth %d gives %.4f", got, cfg[0], cfg[1], d, want), wit)
 				return
